@@ -13,6 +13,8 @@ HARNESSES = [
     Harness('c08_async_export_scalar_result_through_task_return_once', 'export.scalar_result_through_task_return_exactly_once', G + 'async export compute(u32) -> u32', bounded=B),
     Harness('c08_async_import_scalar_immediate_return', 'import.scalar_one_core_call_result_lifted', G + 'async import fetch(u32) -> u32', bounded=B),
 ]
+STRINGS = [Harness('c08_async_export_string_len%d_same_bytes_as_sync' % n, 'export.string_len%d_same_bytes_as_sync' % n, G + 'async export shout(string) -> string, %d byte(s)' % n, bounded=B) for n in (0, 1, 2)] + \
+          [Harness('c08_async_import_string_len%d_params_alive_during_call' % n, 'import.string_len%d_params_alive_during_call' % n, G + 'async import greet(string) -> string, %d byte(s)' % n, bounded=B) for n in (0, 1, 2)]
 # written (harness/c08.rs) but beyond CBMC here (out of memory): String + executor + Box<dyn Future>; listed as not covered
 GS = 'generated Subtask implementation of an async import (crates/rust/src/interface.rs generate_guest_import_body_async: abi_layout, results_offset, params_lower, call_import, params_dealloc_lists, params_dealloc_lists_and_own, results_lift), copied out of the import function by rule R2 — '
 BS = 'one probe world; strings / lists of <= 2 bytes, list<record> of <= 1 element; the callbacks are called in the order the runtime uses (C21 proves that order for every host schedule)'
@@ -23,7 +25,7 @@ CALLBACKS = [
     Harness('c08_import_callbacks_list_of_records_empty', 'import.callbacks_list_of_records_empty', GS + 'many(list<record { u64, string }>) -> u32, empty list', bounded=BS),
     Harness('c08_import_callbacks_list_of_records_one', 'import.callbacks_list_of_records_one', GS + 'many(list<record { u64, string }>) -> u32, one element', bounded=BS),
 ]
-NOT_FINISHING = ['c08_async_export_string_same_bytes_as_sync', 'c08_async_import_string_params_alive_during_call']
+NOT_FINISHING = [h.name for h in STRINGS]   # also with the length fixed per harness (tried: 0.60 of 62 GB after 4 min, then killed)
 
 
 def run(rep, tier):
@@ -39,9 +41,11 @@ def run(rep, tier):
     only = os.environ.get('VERIF_ONLY')   # development aid (never used by the registered commands): run matching callback harnesses only
     if only:
         import re
-        d2 = rustgen.generate(rep, 'rustgen_asub', mock=True, hoist=True)
-        kani.run_harnesses(rep, d2, [h for h in CALLBACKS if re.search(only, h.name)], None, 'kani-rustgen', timeout_each=1800, harness_file=os.path.join(d2, 'src/lib.rs'), guard=False)
-        return
+        cb = [h for h in CALLBACKS if re.search(only, h.name)]
+        if cb:
+            d2 = rustgen.generate(rep, 'rustgen_asub', mock=True, hoist=True)
+            kani.run_harnesses(rep, d2, cb, None, 'kani-rustgen', timeout_each=1800, harness_file=os.path.join(d2, 'src/lib.rs'), guard=False)
+            return
     d = rustgen.generate(rep, 'rustgen_async', extra_args=['--runtime-path', 'crate::rt'], mock=True,
                          mock_prefix='crate::rt::async_support::verif::c08::mockhost')
     mount = os.path.join(BUILD_ROOT, 'c08-mount')
@@ -50,7 +54,12 @@ def run(rep, tier):
         shutil.copy(os.path.join(d, 'src/probe.rs'), os.path.join(mount, 'probe.rs'))
         kani.EXTRA_CFG[:] = ['bytecodealliance_wit_bindgen_verif_c08']
         try:
-            kani.run_harnesses(rep, rc.CRATE, HARNESSES, rc.FEATURES, 'kani-guest-c08', harness_file='/verif/harness/c08.rs', timeout_each=900)
+            hs = HARNESSES
+            if only:   # the string harnesses are only reachable this way: they exhaust CBMC's memory (42 GB after 4 min for one byte), see NOT_FINISHING
+                hs = [h for h in HARNESSES + STRINGS if re.search(only, h.name)]
+            kani.run_harnesses(rep, rc.CRATE, hs, rc.FEATURES, 'kani-guest-c08', harness_file='/verif/harness/c08.rs', timeout_each=1200, jobs=3)
+            if only:
+                return
         finally:
             kani.EXTRA_CFG[:] = []
     d2 = rustgen.generate(rep, 'rustgen_asub', mock=True, hoist=True)
